@@ -6,6 +6,7 @@ import (
 	"fmt"
 	"math/big"
 	"math/rand/v2"
+	"strings"
 
 	"github.com/onflow/crypto"
 	"github.com/onflow/crypto/hash"
@@ -16,6 +17,13 @@ type c16In struct {
 	IdPk   bool     `json:"identity_pk,omitempty"`
 	Tags   []string `json:"tags"` // application tags (hex) whose signatures of the pk bytes are offered as PoP
 	Salt   uint64   `json:"salt"`
+	// PkRoute: constructor of the verifying key object (see c01RoutePk); IdSrc: constructor of the identity key
+	// (see c02IdentityKey; "zero-sk" = PublicKey() of the zero private key).  Scalar 00..00 = the zero private
+	// key (aggregate of x and -x): its PoP is the identity signature and verifies under nothing.
+	PkRoute string `json:"pk_route,omitempty"`
+	IdSrc   string `json:"identity_src,omitempty"`
+	// SkKind: "" = decoded scalar; "generated" (Scalar is the seed); "aggregated" (Scalar = sum of two halves)
+	SkKind string `json:"sk_kind,omitempty"`
 }
 
 // the proof-of-possession hasher, rebuilt from the documented ciphersuite (not taken from the library)
@@ -35,7 +43,7 @@ func init() {
 		PropCheck: "prop_bad_ids",
 		Gen:       c16Gen,
 		Run:       c16Run,
-		Rule:      "per key: the generated PoP and candidate strings offered to BLSVerifyPOP (the PoP itself, signatures of the public key bytes under application tags incl. empty, long, prefixes/suffixes of the PoP suite, PoP of another key, bit flips, identity, s+T) plus the converse (the PoP offered to Verify under each tag); keys 1, r-1, random, identity public key; distinct by input",
+		Rule:      "per key: the generated PoP and candidate strings offered to BLSVerifyPOP (the PoP itself, signatures of the public key bytes under application tags incl. empty, long, prefixes/suffixes of the PoP suite, PoP of another key, bit flips, identity, s+T) plus the converse (the PoP offered to Verify under each tag); keys 1, r-1, random, identity public key; added by the generator audit: 38 application tags (pieces, extensions, doublings, case / separator variants of both suite strings, the suites themselves, NUL and non-UTF8 bytes, lengths at the KMAC rate); the identity key from every constructor (constant, decoded, aggregated, removed, PublicKey() of the zero private key) and the zero private key itself (its PoP is the identity signature and verifies under nothing); the verifying key object from every constructor (decoded, compressed, aggregated, removed, ...) with BLSVerifyPOP as its FIRST use, generated and aggregated private keys, BLSGeneratePOP as the first use of a fresh private key object; wrong candidates offered BEFORE the genuine PoP and the genuine PoP again after all rejected ones; the other key's PoP verified under its own key first, ours under the other, the negated and a decoded copy of the right key; candidates negated, + order-3 point, x + p, all flag combinations, infinity with a stray byte, nil, empty, 49 and 96 bytes; runner-side: BLSGeneratePOP repeatable and its result unchanged, key encoding unchanged, non-BLS and nil keys refused with the typed error also with wrong-length candidates, no panic; distinct by input",
 		Shard:     2,
 	})
 }
@@ -44,7 +52,14 @@ func c16Gen(tier string, r *rand.Rand) []Case {
 	var cs []Case
 	pop := "BLS_POP_BLS12381G1_XOF:KMAC128_SSWU_RO_POP_"
 	sig := "BLS_SIG_BLS12381G1_XOF:KMAC128_SSWU_RO_POP_"
-	tags := [][]byte{{}, []byte("a"), []byte("BLS_POP_"), []byte(pop), []byte(pop[:len(pop)-len(sig)+8]), []byte("BLS_"), rbytes(r, 1000)}
+	h2c := "BLS12381G1_XOF:KMAC128_SSWU_RO_"
+	tags := [][]byte{{}, []byte("a"), []byte("BLS_POP_"), []byte(pop), []byte(pop[:len(pop)-len(sig)+8]), []byte("BLS_"), rbytes(r, 1000),
+		// crafted around the two suite strings: pieces, extensions, the suites themselves, doubled, case and
+		// separator variants, NUL / non-UTF8 bytes, tags ending or starting like the other suite
+		[]byte(sig), []byte(h2c), []byte(h2c + "POP_"), []byte("POP_"), []byte("BLS_POP_" + h2c), []byte("BLS_SIG_"), []byte("BLS_POP_" + sig),
+		[]byte(pop + sig), []byte(pop + pop), []byte(sig + pop), []byte(pop[:len(pop)-1]), []byte(pop + "_"), []byte(pop[1:]), []byte("BLS_POP"), []byte("BLS_POP_BLS_SIG_"),
+		[]byte("bls_pop_" + strings.ToLower(h2c) + "pop_"), []byte(strings.Replace(pop, "_", "-", -1)), []byte(pop + "\x00"), append([]byte{0}, []byte(pop)...), {0}, {0xff, 0xfe},
+		[]byte(strings.Repeat("BLS_POP_", 21)), rbytes(r, 168-len(sig)), rbytes(r, 168-len(sig)-3), rbytes(r, 164), []byte(" " + pop), []byte(pop + " ")}
 	var th []string
 	for _, t := range tags {
 		th = append(th, hx(t))
@@ -59,9 +74,29 @@ func c16Gen(tier string, r *rand.Rand) []Case {
 		keys = append(keys, k.Add(k, big.NewInt(1)))
 	}
 	for _, k := range keys {
-		cs = append(cs, mkcase("key", c16In{hx(fixed(k, 32)), false, th, r.Uint64()}))
+		cs = append(cs, mkcase("key", c16In{Scalar: hx(fixed(k, 32)), Tags: th, Salt: r.Uint64()}))
 	}
-	cs = append(cs, mkcase("identity-pk", c16In{hx(fixed(big.NewInt(5), 32)), true, th[:2], r.Uint64()}))
+	cs = append(cs, mkcase("identity-pk", c16In{Scalar: hx(fixed(big.NewInt(5), 32)), IdPk: true, Tags: th[:2], Salt: r.Uint64()}))
+	// the identity key from every constructor (the cached identity flag is all that refuses it: H_pop(enc O)
+	// times zero is the identity signature), also as PublicKey() of the zero private key whose PoP is offered
+	for _, src := range []string{"decoded", "aggregated", "removed", "zero-sk"} {
+		cs = append(cs, mkcase("identity-pk", c16In{Scalar: hx(fixed(big.NewInt(5), 32)), IdPk: true, IdSrc: src, Tags: th[:3], Salt: r.Uint64()}))
+	}
+	cs = append(cs, mkcase("zero-private-key", c16In{Scalar: hx(make([]byte, 32)), Tags: th[:3], Salt: r.Uint64()}))
+	// the verifying key object from every constructor (BLSVerifyPOP encodes the key: a key that was decoded,
+	// aggregated or removed-from has never been encoded before), generated and aggregated private keys
+	rk := func() string {
+		k := new(big.Int).Mod(new(big.Int).SetBytes(rbytes(r, 40)), new(big.Int).Sub(blsR, big.NewInt(1)))
+		return hx(fixed(k.Add(k, big.NewInt(1)), 32))
+	}
+	for i, rt := range []string{"decoded", "decoded-compressed", "agg-single", "agg-with-identity", "agg-split", "removed", "removed-identity", "via-encoded-sk"} {
+		if tier != "thorough" && i%2 == 1 {
+			continue
+		}
+		cs = append(cs, mkcase("pk-route", c16In{Scalar: rk(), PkRoute: rt, Tags: th[i : i+4], Salt: r.Uint64()}))
+	}
+	cs = append(cs, mkcase("sk-generated", c16In{Scalar: hx(rbytes(r, 48)), SkKind: "generated", Tags: th[3:6], Salt: r.Uint64()}))
+	cs = append(cs, mkcase("sk-aggregated", c16In{Scalar: rk(), SkKind: "aggregated", Tags: th[5:8], PkRoute: "decoded", Salt: r.Uint64()}))
 	return cs
 }
 
@@ -71,13 +106,62 @@ func c16Run(c Case) (Result, error) {
 		return Result{}, err
 	}
 	rr := rand.New(rand.NewPCG(in.Salt, 0x16))
-	sk, err := crypto.DecodePrivateKey(crypto.BLSBLS12381, unhx(in.Scalar))
+	// mkSk builds a FRESH private key object for the case (its public key not computed yet)
+	scalarHex := in.Scalar
+	mkSk := func() (crypto.PrivateKey, error) {
+		switch {
+		case in.SkKind == "generated":
+			return crypto.GeneratePrivateKey(crypto.BLSBLS12381, unhx(in.Scalar))
+		case new(big.Int).SetBytes(unhx(in.Scalar)).Sign() == 0:
+			return c04ZeroKey(rand.New(rand.NewPCG(in.Salt, 0x1600)))
+		case in.SkKind == "aggregated":
+			sc := new(big.Int).SetBytes(unhx(in.Scalar))
+			h := new(big.Int).Rsh(sc, 1)
+			if h.Sign() == 0 {
+				h.SetInt64(1)
+			}
+			a, e1 := crypto.DecodePrivateKey(crypto.BLSBLS12381, fixed(h, 32))
+			b, e2 := crypto.DecodePrivateKey(crypto.BLSBLS12381, fixed(new(big.Int).Mod(new(big.Int).Sub(sc, h), blsR), 32))
+			if e1 != nil || e2 != nil {
+				return nil, fmt.Errorf("%v %v", e1, e2)
+			}
+			return crypto.AggregateBLSPrivateKeys([]crypto.PrivateKey{a, b})
+		}
+		return crypto.DecodePrivateKey(crypto.BLSBLS12381, unhx(in.Scalar))
+	}
+	sk, err := mkSk()
 	if err != nil {
 		return Result{}, err
 	}
+	scalarHex = hx(sk.Encode())
+	scalar := new(big.Int).SetBytes(sk.Encode())
+	// BLSGeneratePOP as the FIRST use of a fresh private key object
+	skFresh, _ := mkSk()
+	popFresh, errFresh := crypto.BLSGeneratePOP(skFresh)
 	var pk crypto.PublicKey = sk.PublicKey()
+	if in.PkRoute != "" && scalar.Sign() != 0 {
+		if pk, err = c01RoutePk(in.PkRoute, sk, scalar, rr); err != nil {
+			return Result{}, implViolation("public key through route %q: %v", in.PkRoute, err)
+		}
+	}
 	if in.IdPk {
-		pk = crypto.IdentityBLSPublicKey()
+		if in.IdSrc == "zero-sk" {
+			z, e := c04ZeroKey(rr)
+			if e != nil {
+				return Result{}, e
+			}
+			pk = z.PublicKey()
+		} else if pk, err = c02IdentityKey(in.IdSrc, rr); err != nil {
+			return Result{}, implViolation("identity key through route %q: %v", in.IdSrc, err)
+		}
+	}
+	// the key object's FIRST use is BLSVerifyPOP (before anything encodes it) when it comes from a constructor
+	var firstUse string
+	if in.PkRoute != "" || in.IdSrc != "" {
+		if p0, e := crypto.BLSGeneratePOP(sk); e == nil {
+			ok, e2 := crypto.BLSVerifyPOP(pk, p0)
+			firstUse = verdictClass(ok, e2)
+		}
 	}
 	pkBytes := pk.Encode()
 	one, _ := crypto.DecodePrivateKey(crypto.BLSBLS12381, fixed(big.NewInt(1), 32))
@@ -103,7 +187,21 @@ func c16Run(c Case) (Result, error) {
 		ok, e := crypto.BLSVerifyPOP(pk, b)
 		cands = append(cands, cand{fam, hx(b), verdictClass(ok, e)})
 	}
+	if errFresh != nil || !bytes.Equal(popFresh, pop) {
+		return Result{}, implViolation("BLSGeneratePOP as the first use of a fresh private key object gives (%x, %v), %x after PublicKey() was called", popFresh, errFresh, pop)
+	}
+	popCopy := append([]byte{}, pop...)
+	// wrong candidates BEFORE the first verification of the genuine PoP (verification keeps no memory)
+	if !in.IdPk {
+		fl0 := append([]byte{}, pop...)
+		fl0[47] ^= 1
+		add("bitflip-before-first-valid", fl0)
+		add("nil-before-first-valid", nil)
+	}
 	add("pop", pop)
+	if firstUse != "" && firstUse != cands[len(cands)-1].V {
+		return Result{}, implViolation("BLSVerifyPOP as the first use of the key object (route %q%q) gave %s, later %s", in.PkRoute, in.IdSrc, firstUse, cands[len(cands)-1].V)
+	}
 	for _, th := range in.Tags {
 		hs := crypto.NewExpandMsgXOFKMAC128(string(unhx(th)))
 		s, _ := sk.Sign(pkBytes, hs)
@@ -118,7 +216,56 @@ func c16Run(c Case) (Result, error) {
 	}
 	k2, _ := crypto.GeneratePrivateKey(crypto.BLSBLS12381, rbytes(rr, 32))
 	pop2, _ := crypto.BLSGeneratePOP(k2)
+	// the other key's PoP is verified under ITS key first (true), then offered here; ours is offered there
+	if ok, e := crypto.BLSVerifyPOP(k2.PublicKey(), pop2); !ok || e != nil {
+		return Result{}, implViolation("the PoP of a generated key does not verify under its own key: (%v, %v)", ok, e)
+	}
 	add("pop-of-other-key", pop2)
+	if scalar.Sign() != 0 && !bytes.Equal(k2.PublicKey().Encode(), sk.PublicKey().Encode()) {
+		if ok, e := crypto.BLSVerifyPOP(k2.PublicKey(), pop); ok || e != nil {
+			return Result{}, implViolation("the PoP of key %s verifies under the unrelated key %x: (%v, %v)", scalarHex, k2.PublicKey().Encode(), ok, e)
+		}
+		// ... and under the negated key, under a decoded copy of the right key it must verify
+		ng, _ := crypto.DecodePrivateKey(crypto.BLSBLS12381, fixed(new(big.Int).Sub(blsR, scalar), 32))
+		if ok, e := crypto.BLSVerifyPOP(ng.PublicKey(), pop); ok || e != nil {
+			return Result{}, implViolation("the PoP of key %s verifies under the negated key: (%v, %v)", scalarHex, ok, e)
+		}
+		dec, e := crypto.DecodePublicKey(crypto.BLSBLS12381, sk.PublicKey().Encode())
+		if e != nil {
+			return Result{}, implViolation("the public key's encoding does not decode: %v", e)
+		}
+		for _, w := range [][]byte{pop2, pop, pop2} {
+			ok, e := crypto.BLSVerifyPOP(dec, w)
+			if e != nil || ok != bytes.Equal(w, pop) {
+				return Result{}, implViolation("BLSVerifyPOP under a decoded copy of key %s on %x: (%v, %v)", scalarHex, w, ok, e)
+			}
+		}
+	}
+	if P, ok := e1DecompressSafe(pop); ok {
+		add("negated", e1Compress(e1Neg(P)))
+		add("plus-order-3", e1Compress(e1Add(P, e1SmallOrder(rr, 3))))
+		if !P.inf {
+			if x2 := new(big.Int).Add(P.x, blsP); x2.BitLen() <= 381 {
+				b := fixed(x2, 48)
+				b[0] |= pop[0] & 0xE0
+				add("x-plus-p", b)
+			}
+		}
+	}
+	for _, f := range []byte{0x00, 0x20, 0x40, 0x60, 0xC0, 0xE0} {
+		b := append([]byte{}, pop...)
+		b[0] = (b[0] & 0x1F) | f
+		if !bytes.Equal(b, pop) {
+			add("flags", b)
+		}
+	}
+	strayInf := append([]byte{0xC0}, make([]byte, 47)...)
+	strayInf[47] = 1
+	add("infinity-stray", strayInf)
+	add("nil", nil)
+	add("empty", []byte{})
+	add("long-49", append(append([]byte{}, pop...), 0))
+	add("long-96", append(append([]byte{}, pop...), pop...))
 	fl := append([]byte{}, pop...)
 	bit := rr.IntN(384)
 	fl[bit/8] ^= 1 << (7 - bit%8)
@@ -128,13 +275,45 @@ func c16Run(c Case) (Result, error) {
 	add("identity-sig", inf)
 	add("plusT", e1Compress(e1Add(e1Decompress(pop), e1Torsion(rr))))
 	add("short", pop[:47])
+	add("pop-again", pop) // after all the rejected candidates
+	if again, e := crypto.BLSGeneratePOP(sk); e != nil || !bytes.Equal(again, popCopy) || !bytes.Equal(pop, popCopy) {
+		return Result{}, implViolation("BLSGeneratePOP is not repeatable or its earlier result changed: first %x, held slice now %x, second call (%x, %v)", popCopy, pop, again, e)
+	}
+	if !bytes.Equal(pk.Encode(), pkBytes) {
+		return Result{}, implViolation("the key's encoding changed during the case: %x, was %x", pk.Encode(), pkBytes)
+	}
+	// typed errors also with a nil key and together with a candidate of the wrong length
+	for _, k := range []crypto.PublicKey{nil} {
+		for _, cnd := range [][]byte{pop, pop[:47], nil} {
+			var ok bool
+			var e error
+			if pn, m := catch(func() { ok, e = crypto.BLSVerifyPOP(k, cnd) }); pn {
+				return Result{}, implViolation("BLSVerifyPOP panics on a nil key: %s", m)
+			}
+			if !crypto.IsNotBLSKeyError(e) || ok {
+				return Result{}, implViolation("BLSVerifyPOP(nil key, %d-byte candidate) = (%v, %v)", len(cnd), ok, e)
+			}
+		}
+	}
+	{
+		var e error
+		var sg crypto.Signature
+		if pn, m := catch(func() { sg, e = crypto.BLSGeneratePOP(nil) }); pn {
+			return Result{}, implViolation("BLSGeneratePOP panics on a nil key: %s", m)
+		}
+		if !crypto.IsNotBLSKeyError(e) || sg != nil {
+			return Result{}, implViolation("BLSGeneratePOP(nil) = (%x, %v)", sg, e)
+		}
+	}
 	// non-BLS key
 	ek, _ := crypto.GeneratePrivateKey(crypto.ECDSAP256, rbytes(rr, 32))
 	if _, e := crypto.BLSGeneratePOP(ek); !crypto.IsNotBLSKeyError(e) {
 		return Result{}, implViolation("BLSGeneratePOP accepted a non-BLS key")
 	}
-	if _, e := crypto.BLSVerifyPOP(ek.PublicKey(), pop); !crypto.IsNotBLSKeyError(e) {
-		return Result{}, implViolation("BLSVerifyPOP accepted a non-BLS key")
+	for _, cnd := range [][]byte{pop, pop[:47], nil, make([]byte, 64)} {
+		if ok, e := crypto.BLSVerifyPOP(ek.PublicKey(), cnd); !crypto.IsNotBLSKeyError(e) || ok {
+			return Result{}, implViolation("BLSVerifyPOP(non-BLS key, %d-byte candidate) = (%v, %v)", len(cnd), ok, e)
+		}
 	}
 	if !in.IdPk {
 		ref2, _ := sk.Sign(pkBytes, ref)
@@ -146,7 +325,7 @@ func c16Run(c Case) (Result, error) {
 	for _, cd := range cands {
 		items = append(items, fmt.Sprintf("(%s, %s)", cqs(cd.Bytes), cqs(cd.V)))
 	}
-	term := fmt.Sprintf("SigCase %s %s %s %s %s", cqs(in.Scalar), cqs(hx(hEnc)), cqbool(in.IdPk), cqs(hx(signOut)), cqlist(items))
+	term := fmt.Sprintf("SigCase %s %s %s %s %s", cqs(scalarHex), cqs(hx(hEnc)), cqbool(in.IdPk), cqs(hx(signOut)), cqlist(items))
 	return Result{Coq: term, Key: string(c.Input), Nontrivial: true,
 		Obs: map[string]any{"pop": hx(pop), "candidates": cands}}, nil
 }
